@@ -15,131 +15,171 @@
      done(ts, finished)
      dmrgmin(idx, dir, center, ts, energyOK)   dmrgsweep(count, converged, hasprev)
      save(ts, sw, dir) crash resume(ts, sw, dir) rundone(fileExists) permute(on)
-     ret(path, orderOK, valuesOK, timesOK)                                                          *)
+     ret(path, orderOK, valuesOK, timesOK)
+   Clauses come in two kinds.  REQUIREMENT clauses (what the properties state: drive rows and interaction matrix
+   handed to the solver, normalisation at fills, every step completed once and in order with exactly one fill,
+   results complete / in register order / at the right times / with the right values, autosave file removed,
+   run loop finished) REJECT the trace.  MECHANISM clauses (how the code organises a step: sweep shape, bath
+   stacks and centre at progress() boundaries, where update_H sits, DMRG bookkeeping, resume bookkeeping) are
+   recorded as DRIFT: the trace is still checked to its end against the requirement clauses.                   *)
 EXTENDS Integers, Sequences, TLC, Json, IOUtils
 Traces == JsonDeserialize(IOEnv.TRACE_FILE)
-VARIABLES tid, l, bad, N, K, mode, ts, pair, single, fillsInStep, fills, lastSave, crashed, resumed,
+VARIABLES tid, l, bad, drift, N, K, mode, ts, pair, single, fillsInStep, fills, lastSave, crashed, resumed,
           returned, fileGone, hOK, sweepsInStep, rowTs
-vars == <<tid, l, bad, N, K, mode, ts, pair, single, fillsInStep, fills, lastSave, crashed, resumed,
+vars == <<tid, l, bad, drift, N, K, mode, ts, pair, single, fillsInStep, fills, lastSave, crashed, resumed,
           returned, fileGone, hOK, sweepsInStep, rowTs>>
 Ev == Traces[tid].events
 NoSave == [ts |-> 0 - 1, sw |-> 0 - 1, dir |-> "none"]
 Zero == [x \in 0..63 |-> 0]
-Init == /\ tid \in 1..Len(Traces) /\ l = 1 /\ bad = "none" /\ N = 0 /\ K = 0 /\ mode = "none" /\ ts = 0
+Init == /\ tid \in 1..Len(Traces) /\ l = 1 /\ bad = "none" /\ drift = "none" /\ N = 0 /\ K = 0 /\ mode = "none" /\ ts = 0
         /\ pair = Zero /\ single = Zero /\ fillsInStep = 0 /\ fills = 0 /\ lastSave = NoSave /\ crashed = FALSE
         /\ resumed = FALSE /\ returned = FALSE /\ fileGone = FALSE /\ hOK = TRUE /\ sweepsInStep = 0 /\ rowTs = 0 - 1
-Keep(S) == UNCHANGED S
 Rest == <<N, K, mode, ts, pair, single, fillsInStep, fills, lastSave, crashed, resumed, returned, fileGone, hOK, sweepsInStep, rowTs>>
-Fail(c) == bad' = c /\ UNCHANGED Rest
-Ok == bad' = bad
 ShapeOK == IF N >= 3 THEN /\ \A b \in 0..(N - 2) : pair[b] = 2
                           /\ \A q \in 0..(N - 1) : single[q] = (IF q = 0 \/ q = N - 1 THEN 0 ELSE 0 - 2)
            ELSE IF N = 2 THEN pair[0] = 2 /\ single[0] = 0 /\ single[1] = 0
            ELSE single[0] = 2
+KnownEvents == {"new", "init", "evolve", "progress", "sweep", "hmake", "hupdate", "updh", "fill", "done", "dmrgmin", "dmrgsweep",
+                "save", "crash", "resume", "rundone", "permute", "ret"}
+
+\* ---------------------------------------------------------------- REQUIREMENT clauses: first failing one, or "none"
+Req(e) ==
+  CASE ~(e.ev \in KnownEvents) -> "unknown-event"
+    [] e.ev = "init" -> IF fills # 1 THEN "no-fill-at-time-0" ELSE "none"
+    [] e.ev = "hmake" -> IF ~e.matOK THEN "interaction-matrix-differs-from-reference" ELSE "none"
+    [] e.ev = "hupdate" -> IF ~e.rowOK THEN "drive-row-differs-from-reference-row-in-site-order" ELSE "none"
+    [] e.ev = "fill" ->
+         IF ~e.normOK THEN "state-not-normalised-at-fill"
+         ELSE IF fills = 0 /\ e.tidx # 0 THEN "first-fill-not-at-time-0"
+         ELSE IF fills > 0 /\ e.tidx # ts + 1 THEN "fill-not-at-the-end-of-the-current-step"
+         ELSE IF fills > 0 /\ fillsInStep >= 1 THEN "fill-twice-in-one-step"
+         ELSE "none"
+    [] e.ev = "done" ->
+         IF e.ts # ts + 1 THEN "steps-not-completed-in-order-once"
+         ELSE IF fillsInStep # 1 THEN "step-completed-without-exactly-one-fill"
+         ELSE "none"
+    [] e.ev = "rundone" ->
+         IF ts # K THEN "run-loop-ended-before-last-step"
+         ELSE IF e.fileExists THEN "autosave-file-not-removed"
+         ELSE "none"
+    [] e.ev = "ret" ->
+         IF ~fileGone THEN "returned-without-finishing-the-run-loop"
+         ELSE IF fills # K + 1 THEN "not-every-step-filled"
+         ELSE IF ~e.orderOK THEN "results-not-in-register-order"
+         ELSE IF ~e.timesOK THEN "result-times-differ-from-reference"
+         ELSE IF ~e.valuesOK THEN "result-values-differ-from-reference"
+         ELSE "none"
+    [] OTHER -> "none"
+
+\* ---------------------------------------------------------------- MECHANISM clauses: first failing one, or "none"
+Mech(e) ==
+  CASE e.ev = "init" ->
+         IF e.center # 0 THEN "initial-orthogonality-centre-not-0"
+         ELSE IF ~(e.nl = 1 /\ e.nr = (IF N >= 2 THEN N - 1 ELSE 1)) THEN "initial-baths-wrong"
+         ELSE "none"
+    [] e.ev = "evolve" ->
+         IF ts >= K THEN "evolution-after-last-step"
+         ELSE IF ~hOK THEN "evolution-with-a-hamiltonian-whose-drive-terms-were-never-written"
+         ELSE IF e.s2 = 0 - 1 THEN (IF e.center # e.s1 THEN "single-site-evolution-off-centre" ELSE "none")
+         ELSE IF e.s2 # e.s1 + 1 THEN "pair-not-adjacent"
+         ELSE IF ~(e.center \in {e.s1, e.s2}) THEN "centre-left-the-evolved-pair"
+         ELSE IF e.halves <= 0 THEN "pair-evolved-backwards"
+         ELSE "none"
+    [] e.ev = "progress" ->
+         IF e.ts # ts THEN "progress-step-index-mismatch"
+         ELSE IF N >= 3 /\ ~e.finished /\ ~(e.nl = e.sw + 1 /\ e.nr = N - 1 - e.sw) THEN "bath-stacks-do-not-match-sweep-position"
+         ELSE IF N >= 3 /\ ~e.finished /\ ~(e.center \in {e.sw, e.sw + 1}) THEN "centre-does-not-follow-sweep"
+         ELSE IF e.finished # (ts >= K) THEN "finished-flag-wrong"
+         ELSE "none"
+    [] e.ev = "sweep" -> IF ~ShapeOK THEN "sweep-shape-not-second-order-symmetric" ELSE "none"
+    [] e.ev = "updh" ->
+         \* timestep_complete increments the step index before rewriting the Hamiltonian and reports `done` afterwards
+         IF e.ts # ts + fillsInStep THEN "hamiltonian-updated-for-wrong-step"
+         ELSE IF rowTs # e.ts THEN "hamiltonian-row-is-not-the-row-of-this-step"
+         ELSE "none"
+    [] e.ev = "done" ->
+         IF e.finished # (e.ts = K) THEN "finished-flag-wrong"
+         ELSE IF mode = "tdvp" /\ sweepsInStep # 1 THEN "tdvp-step-is-not-exactly-one-sweep"
+         ELSE "none"
+    [] e.ev = "dmrgmin" ->
+         IF e.ts # ts THEN "dmrg-step-index-mismatch"
+         ELSE IF ~(e.idx >= 0 /\ e.idx <= N - 2) THEN "dmrg-pair-out-of-range"
+         ELSE IF ~(e.center \in {e.idx, e.idx + 1}) THEN "centre-left-the-minimised-pair"
+         ELSE IF ~hOK THEN "evolution-with-a-hamiltonian-whose-drive-terms-were-never-written"
+         ELSE IF ~e.energyOK THEN "dmrg-local-energy-below-ground-energy"
+         ELSE "none"
+    [] e.ev = "dmrgsweep" -> IF e.converged /\ ~e.hasprev THEN "dmrg-converged-without-previous-energy" ELSE "none"
+    [] e.ev = "crash" -> IF lastSave = NoSave THEN "crash-before-first-save" ELSE "none"
+    [] e.ev = "resume" ->
+         IF ~crashed THEN "resume-without-crash"
+         ELSE IF ~(e.ts = lastSave.ts /\ e.sw = lastSave.sw /\ e.dir = lastSave.dir) THEN "resumed-state-is-not-the-last-saved-state"
+         ELSE IF e.ts # ts THEN "resumed-step-index-differs-from-crash-point"
+         ELSE "none"
+    [] OTHER -> "none"
+
+\* ---------------------------------------------------------------- state update of an event (no checks)
+InRange(q) == q >= 0 /\ q <= 63
+Apply(e) ==
+  CASE e.ev = "new" ->
+         /\ N' = e.N /\ K' = e.K /\ mode' = e.mode
+         /\ UNCHANGED <<ts, pair, single, fillsInStep, fills, lastSave, crashed, resumed, returned, fileGone, hOK, sweepsInStep, rowTs>>
+    [] e.ev = "evolve" ->
+         IF e.s2 = 0 - 1
+         THEN /\ single' = (IF InRange(e.s1) THEN [single EXCEPT ![e.s1] = @ + e.halves] ELSE single)
+              /\ UNCHANGED <<N, K, mode, ts, pair, fillsInStep, fills, lastSave, crashed, resumed, returned, fileGone, hOK, sweepsInStep, rowTs>>
+         ELSE /\ pair' = (IF InRange(e.s1) THEN [pair EXCEPT ![e.s1] = @ + e.halves] ELSE pair)
+              /\ UNCHANGED <<N, K, mode, ts, single, fillsInStep, fills, lastSave, crashed, resumed, returned, fileGone, hOK, sweepsInStep, rowTs>>
+    [] e.ev = "sweep" ->
+         /\ pair' = Zero /\ single' = Zero /\ sweepsInStep' = sweepsInStep + 1
+         /\ UNCHANGED <<N, K, mode, ts, fillsInStep, fills, lastSave, crashed, resumed, returned, fileGone, hOK, rowTs>>
+    [] e.ev = "hmake" ->
+         \* make_H returns an MPO whose single-atom (drive) slots are empty until update_H fills them
+         /\ hOK' = FALSE
+         /\ UNCHANGED <<N, K, mode, ts, pair, single, fillsInStep, fills, lastSave, crashed, resumed, returned, fileGone, sweepsInStep, rowTs>>
+    [] e.ev = "hupdate" ->
+         /\ rowTs' = e.row /\ hOK' = TRUE
+         /\ UNCHANGED <<N, K, mode, ts, pair, single, fillsInStep, fills, lastSave, crashed, resumed, returned, fileGone, sweepsInStep>>
+    [] e.ev = "fill" ->
+         /\ fills' = fills + 1 /\ fillsInStep' = (IF fills = 0 THEN 0 ELSE 1)
+         /\ UNCHANGED <<N, K, mode, ts, pair, single, lastSave, crashed, resumed, returned, fileGone, hOK, sweepsInStep, rowTs>>
+    [] e.ev = "done" ->
+         /\ ts' = e.ts /\ fillsInStep' = 0 /\ sweepsInStep' = 0 /\ pair' = Zero /\ single' = Zero
+         /\ UNCHANGED <<N, K, mode, fills, lastSave, crashed, resumed, returned, fileGone, hOK, rowTs>>
+    [] e.ev = "dmrgsweep" ->
+         /\ sweepsInStep' = sweepsInStep + 1
+         /\ UNCHANGED <<N, K, mode, ts, pair, single, fillsInStep, fills, lastSave, crashed, resumed, returned, fileGone, hOK, rowTs>>
+    [] e.ev = "save" ->
+         /\ lastSave' = [ts |-> e.ts, sw |-> e.sw, dir |-> e.dir]
+         /\ UNCHANGED <<N, K, mode, ts, pair, single, fillsInStep, fills, crashed, resumed, returned, fileGone, hOK, sweepsInStep, rowTs>>
+    [] e.ev = "crash" ->
+         /\ crashed' = TRUE
+         /\ UNCHANGED <<N, K, mode, ts, pair, single, fillsInStep, fills, lastSave, resumed, returned, fileGone, hOK, sweepsInStep, rowTs>>
+    [] e.ev = "resume" ->
+         /\ resumed' = TRUE /\ crashed' = FALSE
+         /\ UNCHANGED <<N, K, mode, ts, pair, single, fillsInStep, fills, lastSave, returned, fileGone, hOK, sweepsInStep, rowTs>>
+    [] e.ev = "rundone" ->
+         /\ fileGone' = TRUE
+         /\ UNCHANGED <<N, K, mode, ts, pair, single, fillsInStep, fills, lastSave, crashed, resumed, returned, hOK, sweepsInStep, rowTs>>
+    [] e.ev = "ret" ->
+         /\ returned' = TRUE
+         /\ UNCHANGED <<N, K, mode, ts, pair, single, fillsInStep, fills, lastSave, crashed, resumed, fileGone, hOK, sweepsInStep, rowTs>>
+    [] OTHER -> UNCHANGED Rest
+
 Step ==
   /\ bad = "none" /\ l <= Len(Ev)
-  /\ LET e == Ev[l] IN
-     CASE e.ev = "new" ->
-            /\ N' = e.N /\ K' = e.K /\ mode' = e.mode /\ Ok
-            /\ UNCHANGED <<ts, pair, single, fillsInStep, fills, lastSave, crashed, resumed, returned, fileGone, hOK, sweepsInStep, rowTs>>
-       [] e.ev = "init" ->
-            IF e.center # 0 THEN Fail("initial-orthogonality-centre-not-0")
-            ELSE IF ~(e.nl = 1 /\ e.nr = (IF N >= 2 THEN N - 1 ELSE 1)) THEN Fail("initial-baths-wrong")
-            ELSE IF fills # 1 THEN Fail("no-fill-at-time-0")
-            ELSE Ok /\ UNCHANGED Rest
-       [] e.ev = "evolve" ->
-            IF ts >= K THEN Fail("evolution-after-last-step")
-            ELSE IF ~hOK THEN Fail("evolution-with-a-hamiltonian-whose-drive-terms-were-never-written")
-            ELSE IF e.s2 = 0 - 1
-            THEN IF e.center # e.s1 THEN Fail("single-site-evolution-off-centre")
-                 ELSE /\ single' = [single EXCEPT ![e.s1] = @ + e.halves] /\ Ok
-                      /\ UNCHANGED <<N, K, mode, ts, pair, fillsInStep, fills, lastSave, crashed, resumed, returned, fileGone, hOK, sweepsInStep, rowTs>>
-            ELSE IF e.s2 # e.s1 + 1 THEN Fail("pair-not-adjacent")
-                 ELSE IF ~(e.center \in {e.s1, e.s2}) THEN Fail("centre-left-the-evolved-pair")
-                 ELSE IF e.halves <= 0 THEN Fail("pair-evolved-backwards")
-                 ELSE /\ pair' = [pair EXCEPT ![e.s1] = @ + e.halves] /\ Ok
-                      /\ UNCHANGED <<N, K, mode, ts, single, fillsInStep, fills, lastSave, crashed, resumed, returned, fileGone, hOK, sweepsInStep, rowTs>>
-       [] e.ev = "progress" ->
-            IF e.ts # ts THEN Fail("progress-step-index-mismatch")
-            ELSE IF N >= 3 /\ ~e.finished /\ ~(e.nl = e.sw + 1 /\ e.nr = N - 1 - e.sw) THEN Fail("bath-stacks-do-not-match-sweep-position")
-            ELSE IF N >= 3 /\ ~e.finished /\ ~(e.center \in {e.sw, e.sw + 1}) THEN Fail("centre-does-not-follow-sweep")
-            ELSE IF e.finished # (ts >= K) THEN Fail("finished-flag-wrong")
-            ELSE Ok /\ UNCHANGED Rest
-       [] e.ev = "sweep" ->
-            IF ~ShapeOK THEN Fail("sweep-shape-not-second-order-symmetric")
-            ELSE /\ pair' = Zero /\ single' = Zero /\ sweepsInStep' = sweepsInStep + 1 /\ Ok
-                 /\ UNCHANGED <<N, K, mode, ts, fillsInStep, fills, lastSave, crashed, resumed, returned, fileGone, hOK, rowTs>>
-       [] e.ev = "hmake" ->
-            \* make_H returns an MPO whose single-atom (drive) slots are empty until update_H fills them
-            IF ~e.matOK THEN Fail("interaction-matrix-differs-from-reference")
-            ELSE /\ hOK' = FALSE /\ Ok
-                 /\ UNCHANGED <<N, K, mode, ts, pair, single, fillsInStep, fills, lastSave, crashed, resumed, returned, fileGone, sweepsInStep, rowTs>>
-       [] e.ev = "hupdate" ->
-            IF ~e.rowOK THEN Fail("drive-row-differs-from-reference-row-in-site-order")
-            ELSE /\ rowTs' = e.row /\ hOK' = TRUE /\ Ok
-                 /\ UNCHANGED <<N, K, mode, ts, pair, single, fillsInStep, fills, lastSave, crashed, resumed, returned, fileGone, sweepsInStep>>
-       [] e.ev = "updh" ->
-            \* timestep_complete increments the step index before rewriting the Hamiltonian and reports `done` afterwards
-            IF e.ts # ts + fillsInStep THEN Fail("hamiltonian-updated-for-wrong-step")
-            ELSE IF rowTs # e.ts THEN Fail("hamiltonian-row-is-not-the-row-of-this-step")
-            ELSE Ok /\ UNCHANGED Rest
-       [] e.ev = "fill" ->
-            IF ~e.normOK THEN Fail("state-not-normalised-at-fill")
-            ELSE IF fills = 0 /\ e.tidx # 0 THEN Fail("first-fill-not-at-time-0")
-            ELSE IF fills > 0 /\ e.tidx # ts + 1 THEN Fail("fill-not-at-the-end-of-the-current-step")
-            ELSE IF fills > 0 /\ fillsInStep >= 1 THEN Fail("fill-twice-in-one-step")
-            ELSE /\ fills' = fills + 1 /\ fillsInStep' = (IF fills = 0 THEN 0 ELSE 1) /\ Ok
-                 /\ UNCHANGED <<N, K, mode, ts, pair, single, lastSave, crashed, resumed, returned, fileGone, hOK, sweepsInStep, rowTs>>
-       [] e.ev = "done" ->
-            IF e.ts # ts + 1 THEN Fail("steps-not-completed-in-order-once")
-            ELSE IF fillsInStep # 1 THEN Fail("step-completed-without-exactly-one-fill")
-            ELSE IF e.finished # (e.ts = K) THEN Fail("finished-flag-wrong")
-            ELSE IF mode = "tdvp" /\ sweepsInStep # 1 THEN Fail("tdvp-step-is-not-exactly-one-sweep")
-            ELSE /\ ts' = e.ts /\ fillsInStep' = 0 /\ sweepsInStep' = 0 /\ pair' = Zero /\ single' = Zero /\ Ok
-                 /\ UNCHANGED <<N, K, mode, fills, lastSave, crashed, resumed, returned, fileGone, hOK, rowTs>>
-       [] e.ev = "dmrgmin" ->
-            IF e.ts # ts THEN Fail("dmrg-step-index-mismatch")
-            ELSE IF ~(e.idx >= 0 /\ e.idx <= N - 2) THEN Fail("dmrg-pair-out-of-range")
-            ELSE IF ~(e.center \in {e.idx, e.idx + 1}) THEN Fail("centre-left-the-minimised-pair")
-            ELSE IF ~hOK THEN Fail("evolution-with-a-hamiltonian-whose-drive-terms-were-never-written")
-            ELSE IF ~e.energyOK THEN Fail("dmrg-local-energy-below-ground-energy")
-            ELSE Ok /\ UNCHANGED Rest
-       [] e.ev = "dmrgsweep" ->
-            IF e.converged /\ ~e.hasprev THEN Fail("dmrg-converged-without-previous-energy")
-            ELSE /\ sweepsInStep' = sweepsInStep + 1 /\ Ok
-                 /\ UNCHANGED <<N, K, mode, ts, pair, single, fillsInStep, fills, lastSave, crashed, resumed, returned, fileGone, hOK, rowTs>>
-       [] e.ev = "save" ->
-            /\ lastSave' = [ts |-> e.ts, sw |-> e.sw, dir |-> e.dir] /\ Ok
-            /\ UNCHANGED <<N, K, mode, ts, pair, single, fillsInStep, fills, crashed, resumed, returned, fileGone, hOK, sweepsInStep, rowTs>>
-       [] e.ev = "crash" ->
-            IF lastSave = NoSave THEN Fail("crash-before-first-save")
-            ELSE /\ crashed' = TRUE /\ Ok
-                 /\ UNCHANGED <<N, K, mode, ts, pair, single, fillsInStep, fills, lastSave, resumed, returned, fileGone, hOK, sweepsInStep, rowTs>>
-       [] e.ev = "resume" ->
-            IF ~crashed THEN Fail("resume-without-crash")
-            ELSE IF ~(e.ts = lastSave.ts /\ e.sw = lastSave.sw /\ e.dir = lastSave.dir) THEN Fail("resumed-state-is-not-the-last-saved-state")
-            ELSE IF e.ts # ts THEN Fail("resumed-step-index-differs-from-crash-point")
-            ELSE /\ resumed' = TRUE /\ crashed' = FALSE /\ Ok
-                 /\ UNCHANGED <<N, K, mode, ts, pair, single, fillsInStep, fills, lastSave, returned, fileGone, hOK, sweepsInStep, rowTs>>
-       [] e.ev = "rundone" ->
-            IF ts # K THEN Fail("run-loop-ended-before-last-step")
-            ELSE IF e.fileExists THEN Fail("autosave-file-not-removed")
-            ELSE /\ fileGone' = TRUE /\ Ok
-                 /\ UNCHANGED <<N, K, mode, ts, pair, single, fillsInStep, fills, lastSave, crashed, resumed, returned, hOK, sweepsInStep, rowTs>>
-       [] e.ev = "permute" -> Ok /\ UNCHANGED Rest
-       [] e.ev = "ret" ->
-            IF ~fileGone THEN Fail("returned-without-finishing-the-run-loop")
-            ELSE IF fills # K + 1 THEN Fail("not-every-step-filled")
-            ELSE IF ~e.orderOK THEN Fail("results-not-in-register-order")
-            ELSE IF ~e.timesOK THEN Fail("result-times-differ-from-reference")
-            ELSE IF ~e.valuesOK THEN Fail("result-values-differ-from-reference")
-            ELSE /\ returned' = TRUE /\ Ok
-                 /\ UNCHANGED <<N, K, mode, ts, pair, single, fillsInStep, fills, lastSave, crashed, resumed, fileGone, hOK, sweepsInStep, rowTs>>
-       [] OTHER -> Fail("unknown-event")
+  /\ LET e == Ev[l]
+         r == Req(e)
+         m == Mech(e) IN
+     IF r # "none" THEN bad' = r /\ drift' = drift /\ UNCHANGED Rest
+     ELSE /\ bad' = bad
+          /\ drift' = (IF drift = "none" /\ m # "none" THEN m ELSE drift)
+          /\ Apply(e)
   /\ l' = l + 1 /\ UNCHANGED tid
 Spec == Init /\ [][Step]_vars
-Rejected == (bad # "none") => PrintT(<<"REJECT", Traces[tid].id, l - 1, bad>>)
+DriftLine == drift # "none" => PrintT(<<"DRIFT", Traces[tid].id, drift>>)
+Rejected == (bad # "none") => (PrintT(<<"REJECT", Traces[tid].id, l - 1, bad>>) /\ DriftLine)
 Accepted == (bad = "none" /\ l = Len(Ev) + 1) =>
-               IF returned \/ Traces[tid].partial THEN PrintT(<<"ACCEPT", Traces[tid].id>>)
-               ELSE PrintT(<<"REJECT", Traces[tid].id, l, "trace-ends-before-results-were-returned">>)
+               /\ DriftLine
+               /\ IF returned \/ Traces[tid].partial THEN PrintT(<<"ACCEPT", Traces[tid].id>>)
+                  ELSE PrintT(<<"REJECT", Traces[tid].id, l, "trace-ends-before-results-were-returned">>)
 ====
